@@ -1037,7 +1037,6 @@ def search(prop, plan, ctx, disagreements, pr):
 
 def do_replay(prop, plan, path, chk):
     payload = json.load(open(path))
-    print(json.dumps(payload, indent=1, ensure_ascii=False)[:6000])
     case = payload.get('case') or {}
     if 'src_hex' in case:
         binary, err = chk.build_harness(plan.get('features', []))
